@@ -14,7 +14,7 @@ _INTERN = {}
 
 
 class Bit(object):
-    __slots__ = ('kind', 'sup', 'tt', 'D', 'M', 'S', '_m', '_s', '_d')
+    __slots__ = ('kind', 'sup', 'tt', 'D', 'M', 'S', '_m', '_s', '_d', 'n')
 
     def __repr__(self):
         if self.kind == 'c':
@@ -31,6 +31,7 @@ def _mk(kind, sup=(), tt=(), D=frozenset(), M=frozenset(), S=frozenset()):
         b = Bit()
         b.kind, b.sup, b.tt, b.D, b.M, b.S = kind, sup, tt, D, M, S
         b._m = b._s = b._d = None
+        b.n = len(_INTERN)          # creation serial: deterministic name for pseudo-literals
         _INTERN[key] = b
     return b
 
@@ -215,13 +216,13 @@ def _contradict(M):
     return False
 
 
-PSEUDO_CAP = 10
+PSEUDO_CAP = 48
 
 
-def _cap(lits):
+def _cap(lits, keep=()):
     """Dropping must / sufficient literals is sound (weaker knowledge). Pseudo-literals naming sub-terms accumulate along
-    long conjunction chains; keep the newest few so that sets stay small."""
-    ps = [l for l in lits if l[0][0] == '#']
+    long conjunction chains; the names of the direct operands (`keep`) always stay, inherited ones are capped."""
+    ps = [l for l in lits if l[0][0] == '#' and l not in keep]
     if len(ps) <= PSEUDO_CAP:
         return frozenset(lits)
     ps.sort(key=lambda l: l[0][1])
@@ -229,14 +230,14 @@ def _cap(lits):
     return frozenset(l for l in lits if l not in drop)
 
 
-def _dep(D, M, S):
+def _dep(D, M, S, keep=()):
     M = frozenset(M)
     if _contradict(M):
         return C0
     S = frozenset(S)
     if _contradict(S):
         return C1
-    return _mk('d', D=frozenset(D), M=_cap(M), S=_cap(S))
+    return _mk('d', D=frozenset(D), M=_cap(M, keep), S=_cap(S, keep))
 
 
 def bnot(a):
@@ -247,7 +248,7 @@ def bnot(a):
     # "not a" holds  =>  a itself is false (pseudo-literal), and every literal sufficient for a is false
     r = _NEG.get(id(a))
     if r is None:
-        r = _dep(a.D, [(v, not p) for (v, p) in a.S] + [(('#', id(a)), False)],
+        r = _dep(a.D, [(v, not p) for (v, p) in a.S] + [(('#', a.n), False)],
                  [(v, not p) for (v, p) in a.M])
         _NEG[id(a)] = r
         if r.kind == 'd':
@@ -276,7 +277,7 @@ def band(a, b):
 def selflit(a):
     """Pseudo-literal naming the bit itself: lets `T & U` be recognised as implying `T` (and `T != 0`)
     when T is too wide for a truth table. Never part of D."""
-    return (('#', id(a)), True)
+    return (('#', a.n), True)
 
 
 def mustx(a):
@@ -314,7 +315,7 @@ def _band(a, b):
     M = ma | mb
     if _contradict(M):
         return C0
-    return _dep(rawvars(a) | rawvars(b), M, sa & sb)
+    return _dep(rawvars(a) | rawvars(b), M, sa & sb, keep=(selflit(a), selflit(b)))
 
 
 def bor(a, b):
@@ -349,7 +350,7 @@ def _bor(a, b):
     S = sa | sb
     if _contradict(S):
         return C1
-    return _dep(rawvars(a) | rawvars(b), ma & mb, S)
+    return _dep(rawvars(a) | rawvars(b), ma & mb, S, keep=(selflit(a), selflit(b)))
 
 
 def bxor(a, b):
